@@ -208,9 +208,10 @@ def generate(seed, tier="quick", mode=None, **kw):
     if mode == "c08" and r.random() < 0.15:
         # a long-lived process: many earlier anonymizers over (parts of) the same lines, each released when done
         alltext = [G.render_line(ln, "a", secrets) for f in files for ln in f["lines"] if not any(s[0] == "bad" for s in ln["segs"])]
+        other = r.random() < 0.5        # ... under this run's salt, or each under a salt of its own
         for _ in range(r.randint(6, 14)):
             sub = r.sample(alltext, r.randint(1, len(alltext))) if alltext else []
-            plan["pre"].append({"kind": "lines", "drop": True, "salt": o["salt"], "text": "".join(sub)})
+            plan["pre"].append({"kind": "lines", "drop": True, "salt": GC.gen_salt(r, True) if other else o["salt"], "text": "".join(sub)})
     if mode == "c07":
         # unrelated earlier anonymizers in the same process (some reserve this run's secrets)
         for _ in range(r.choices([0, 1, 2, 3], [40, 30, 20, 10])[0]):
